@@ -209,19 +209,42 @@ theorem jit_add_ok (dual needBlock relocAllocs : Bool) (o : Oracle) (r : FaultMo
 
 /-! ## BaseBuilder -/
 
-/-- `builder_fail_atomic_exact`: under every oracle a Builder call answered out of memory left the node list untouched; the only
-other observable change possible is one label id of the CodeHolder used up by a failed `new_label()` -/
+/-- `builder_fail_atomic_exact`: under every oracle a Builder call answered out of memory left the node list untouched.  What
+else may have changed, exactly: a failed `new_label()` may have used up one label id of the CodeHolder; a failed `_emit` has
+CLEARED the emitter's one-shot state (extra register = `{k}` write mask / REP count, instruction options, inline comment) -
+exactly the one-shot state a successful `_emit` leaves (`builder_emit_clears_like_success`) -/
 theorem builder_fail_atomic_exact (op : FaultBuilder.BOp) (o o' : Oracle) (s s' : FaultBuilder.BSt)
     (h : FaultBuilder.bstep op o s = (o', s', .oom)) :
-    s'.v = s.v ∨ (op = .newLabel ∧ s'.v = { s.v with labelCount := s.v.labelCount + 1 }) :=
+    s'.v = s.v ∨ (op = .newLabel ∧ s'.v = { s.v with labelCount := s.v.labelCount + 1 }) ∨
+    (∃ k, op = .emit k ∧ s'.v = FaultBuilder.clearOneShot s.v) :=
   FaultBuilder.bstep_oom_exact op o o' s s' h
 
+/-- the one-shot state after a successful `_emit` is the cleared one: the failed call and the successful call differ only in
+the node -/
+theorem builder_emit_clears_like_success (k : Nat) (v : FaultBuilder.BView) :
+    (FaultBuilder.bspec (.emit k) v).1 =
+      { FaultBuilder.clearOneShot v with nodes := v.nodes ++ [.inst k v.pendExtra v.pendOpts v.pendCmt] } := rfl
+
+/-- `builder_failed_emit_leaves_no_mask`: after an `_emit` answered out of memory - whatever mask / REP register / options /
+comment it carried - the NEXT instruction is emitted exactly as the failure-free run of the remaining calls emits it: no extra
+register, no options, no comment of the failed call; the node list before it is the one before the failed call -/
+theorem builder_failed_emit_leaves_no_mask (k j : Nat) (o o' : Oracle) (s s' : FaultBuilder.BSt)
+    (h : FaultBuilder.bstep (.emit k) o s = (o', s', .oom)) :
+    (FaultBuilder.bspec (.emit j) s'.v).1 =
+      { FaultBuilder.clearOneShot s.v with nodes := s.v.nodes ++ [.inst j 0 0 false] } := by
+  rcases FaultBuilder.bstep_oom_exact _ _ _ _ _ h with h1 | ⟨h1, _⟩ | ⟨k', _, h1⟩
+  · have := FaultBuilder.emit_oom o o' s s' k (by simpa [FaultBuilder.bstep] using h)
+    rw [this]; rfl
+  · cases h1
+  · rw [h1]; rfl
+
 /-- `builder_answer_refines_spec`: an answer other than out of memory is the failure-free answer and effect, except that an
-inline comment that cannot be duplicated is dropped -/
+inline comment that cannot be duplicated is dropped (the node keeps its extra register and options) -/
 theorem builder_answer_refines_spec (op : FaultBuilder.BOp) (o o' : Oracle) (s s' : FaultBuilder.BSt) (e : Err)
     (h : FaultBuilder.bstep op o s = (o', s', e)) (he : e ≠ .oom) :
     (s'.v, e) = FaultBuilder.bspec op s.v ∨
-    (∃ k, op = .emit k true ∧ e = .ok ∧ s'.v = { s.v with nodes := s.v.nodes ++ [.inst k false] }) :=
+    (∃ k, op = .emit k ∧ s.v.pendCmt = true ∧ e = .ok ∧
+      s'.v = { FaultBuilder.clearOneShot s.v with nodes := s.v.nodes ++ [.inst k s.v.pendExtra s.v.pendOpts false] }) :=
   FaultBuilder.bstep_ref op o o' s s' e h he
 
 theorem builder_oom_consumes_fault (op : FaultBuilder.BOp) (o o' : Oracle) (s s' : FaultBuilder.BSt) (e : Err)
@@ -236,14 +259,19 @@ theorem builder_never_corrupt (ops : List FaultBuilder.BOp) (o : Oracle) (hlen :
 
 /-- a failed `new_label()` that used up a label id; a dropped inline comment -/
 example : (FaultBuilder.bstep .newLabel [false, true] {}).2.2 = .oom ∧ (FaultBuilder.bstep .newLabel [false, true] {}).2.1.v.labelCount = 1 := by decide
-example : (FaultBuilder.bstep (.emit 1 true) [false, true] {}).2.1.v.nodes = [.section 0, .inst 1 false] := by decide
+/-- a masked instruction (`k(k1)`) whose node cannot be allocated: out of memory and the mask is gone -/
+example : (FaultBuilder.bstep (.emit 4) [true] { v := { pendExtra := 1, pendOpts := 2, pendCmt := true }, c := {} }).2.1.v = ({} : FaultBuilder.BView) := by decide
+example : (FaultBuilder.bstep (.emit 1) [false, true] { v := { pendCmt := true }, c := {} }).2.1.v.nodes = [.section 0, .inst 1 0 0 false] := by decide
 
 /-! ## BaseCompiler -/
 
+/-- `compiler_fail_atomic_exact`: a Compiler call answered out of memory left nodes, cursor, registers and the open function
+untouched, and no one-shot state (extra register, options) of the failed call pending (`afterFail`: cleared by `_emit`,
+`add_func`, `invoke`); only `add_func` may have used up label ids, at most two -/
 theorem compiler_fail_atomic_exact (op : FaultCompiler.COp) (o o' : Oracle) (s s' : FaultCompiler.CSt)
     (h : FaultCompiler.cstep op o s = (o', s', .oom)) :
-    FaultCompiler.shape s'.v = FaultCompiler.shape s.v ∧ s.v.labelCount ≤ s'.v.labelCount ∧
-    s'.v.labelCount ≤ s.v.labelCount + 2 ∧ ((∀ n, op ≠ .addFunc n) → s'.v = s.v) :=
+    FaultCompiler.shape s'.v = FaultCompiler.shape (FaultCompiler.afterFail op s.v) ∧ s.v.labelCount ≤ s'.v.labelCount ∧
+    s'.v.labelCount ≤ s.v.labelCount + 2 ∧ ((∀ n, op ≠ .addFunc n) → s'.v = FaultCompiler.afterFail op s.v) :=
   FaultCompiler.cstep_oom_exact op o o' s s' h
 
 theorem compiler_answer_refines_spec (op : FaultCompiler.COp) (o o' : Oracle) (s s' : FaultCompiler.CSt) (e : Err)
